@@ -441,7 +441,7 @@ inline Plan gen_c04(u64 seed, const std::string& tier)
             static const long long ds2[] = {1, -1, 2, -2, 4, 8, -8, 17};
             displace = ds2[fl.below(8)];
         }
-        o.a = {w, displace, wl.chance(1, 3) ? (long long)wl.below(4) : -1, wl.chance(1, 6) ? 1 : 0};
+        o.a = {w, displace, wl.chance(1, 3) ? (long long)wl.below(4) : (wl.chance(1, 4) ? -2 : -1), wl.chance(1, 6) ? 1 : 0};
         p.ops.push_back(o);
     }
     return p;
